@@ -561,7 +561,7 @@ func c20() []string {
 		cmds      []string
 	}
 	projects := [][]tk{
-		{{"build", "Build it", nil, []string{"echo out-build", "echo err-build 1>&2"}}},
+		{{"build", "Build the bindings for C#", nil, []string{"echo out-build", "echo err-build 1>&2"}}},
 		{{"zeta", "", nil, []string{"echo z"}}, {"alpha", "First", []string{"zeta"}, []string{"echo a1", "echo a2"}}},
 		{{"default", "The default", nil, []string{"echo dflt"}}, {"other", "Other", nil, nil}},
 		{{"b", "bee", nil, []string{"echo b"}}, {"a", "ay", []string{"b"}, []string{"echo a"}}, {"c", "", []string{"a", "b"}, []string{"echo c; echo c2"}}},
